@@ -16,6 +16,7 @@ import (
 type c10Tier struct {
 	name                string
 	nGen, K             int
+	nExtra              int // programs whose reference is one fresh process per variant
 	nSim, nNative       int
 	cliK                int
 	selfSeeds, selfReps int
@@ -26,10 +27,10 @@ type c10Tier struct {
 func c10TierOf(name string) c10Tier {
 	switch name {
 	case "quick":
-		return c10Tier{name: name, nGen: envInt("VERIF_C10_NGEN", 30), K: 3, nSim: envInt("VERIF_C10_NSIM", 360), nNative: envInt("VERIF_C10_NNATIVE", 160), cliK: 3,
-			selfSeeds: 2, selfReps: 10, selfPars: []int{16, 1}, budget: time.Duration(envInt("VERIF_BUDGET_S", 150)) * time.Second}
+		return c10Tier{name: name, nGen: envInt("VERIF_C10_NGEN", 30), nExtra: envInt("VERIF_C10_NEXTRA", 200), K: 3, nSim: envInt("VERIF_C10_NSIM", 360), nNative: envInt("VERIF_C10_NNATIVE", 160), cliK: 3,
+			selfSeeds: 2, selfReps: 10, selfPars: []int{16, 1}, budget: time.Duration(envInt("VERIF_BUDGET_S", 240)) * time.Second}
 	case "thorough":
-		return c10Tier{name: name, nGen: envInt("VERIF_C10_NGEN", 320), K: 8, nSim: envInt("VERIF_C10_NSIM", 14000), nNative: envInt("VERIF_C10_NNATIVE", 3500), cliK: 4,
+		return c10Tier{name: name, nGen: envInt("VERIF_C10_NGEN", 320), nExtra: envInt("VERIF_C10_NEXTRA", 1200), K: 8, nSim: envInt("VERIF_C10_NSIM", 14000), nNative: envInt("VERIF_C10_NNATIVE", 3500), cliK: 4,
 			selfSeeds: 3, selfReps: 30, selfPars: []int{1, 4, 16}, budget: time.Duration(envInt("VERIF_BUDGET_S", 1500)) * time.Second}
 	}
 	infraFail("unknown tier %q", name)
@@ -312,7 +313,7 @@ func runC10(tierName string) int {
 	par := envInt("VERIF_PAR", 16)
 
 	longHistories = tier.name == "thorough"
-	pool := buildPool(baseSeed, tier.nGen, filepath.Join(verifDir(), "corpus"))
+	pool := buildPool(baseSeed, tier.nGen, tier.nExtra, filepath.Join(verifDir(), "corpus"))
 	variants := []string{"sim", "native"}
 	classes := map[string]string{}
 	for _, pp := range pool {
@@ -384,6 +385,9 @@ func runC10(tierName string) int {
 		}
 		var jobs []cj
 		for pi := range pool {
+			if pool[pi].Extra {
+				continue
+			}
 			for k := 0; k < tier.cliK; k++ {
 				jobs = append(jobs, cj{pi, k, false})
 			}
@@ -429,6 +433,8 @@ func runC10(tierName string) int {
 		evals, nontrivial                                         int
 		sigs                                                      map[string]bool
 		adj                                                       map[string]bool
+		progPairs                                                 map[string]map[[2]string]bool
+		reexecProgs                                               map[string]map[string]bool
 		probes                                                    map[string]int
 		prefillKinds                                              map[string]int
 		execs, parses, reexec, clock, gcs, logs, sweeps, prefills int
@@ -436,7 +442,9 @@ func runC10(tierName string) int {
 		draws                                                     uint64
 		samples                                                   []any
 	}
-	A := &agg{sigs: map[string]bool{}, adj: map[string]bool{}, probes: map[string]int{}, prefillKinds: map[string]int{}}
+	A := &agg{sigs: map[string]bool{}, adj: map[string]bool{}, probes: map[string]int{}, prefillKinds: map[string]int{},
+		progPairs:   map[string]map[[2]string]bool{"sim": {}, "native": {}},
+		reexecProgs: map[string]map[string]bool{"sim": {}, "native": {}}}
 	perVariant := map[string]int{}
 	var stopFlag atomic.Bool
 	var firstViol sync.Once
@@ -479,6 +487,12 @@ func runC10(tierName string) int {
 				for k := range st.adjPairs {
 					A.adj[k] = true
 				}
+				for k := range st.progPairs {
+					A.progPairs[variant][k] = true
+				}
+				for k := range st.reexecProgs {
+					A.reexecProgs[variant][k] = true
+				}
 				for k, n := range st.probes {
 					A.probes[k] += n
 				}
@@ -515,6 +529,7 @@ func runC10(tierName string) int {
 	runBatch("sim", tier.nSim, 400)
 	runBatch("native", tier.nNative, 401)
 	histSecs := time.Since(tH).Seconds()
+	fmt.Printf("histories: %d in %.1fs (cli phase before it ended at %.1fs)\n", A.evals, histSecs, tH.Sub(t0).Seconds())
 
 	// Report violations found in histories: shrink the first of each class, replay, write.
 	seenClass := map[string]bool{}
@@ -646,6 +661,23 @@ func runC10(tierName string) int {
 	for _, pp := range pool {
 		origin[pp.P.Origin]++
 	}
+	nExecable := 0
+	for _, ix := range admitted["sim"] {
+		if ref := pool[ix].Ref["sim"]; ref != nil && ref.ParseClass == "ok" {
+			nExecable++
+		}
+	}
+	nRefRuns, nExtraProgs := 0, 0
+	for _, pp := range pool {
+		if pp.Extra {
+			nExtraProgs++
+		}
+	}
+	for _, pp := range pool {
+		for _, vn := range variants {
+			nRefRuns += len(pp.RefSpecs[vn])
+		}
+	}
 	ev := &Evidence{PropertyID: "C10", Tier: tier.name, Seed: int64(baseSeed), Level: "exploration", WallS: wall, Violations: rep.violations,
 		Assumptions: []string{
 			"verdicts compare outputs of the same worker binary only (sim: go1.26.8 + patched runtime.rand; native: default toolchain); cross-toolchain agreement is informational",
@@ -655,18 +687,19 @@ func runC10(tierName string) int {
 			"concurrent callers of frontend.Exec are outside the property",
 		},
 		Coverage: map[string]any{
-			"evaluations":                  A.evals,
-			"distinct_nontrivial":          A.nontrivial,
-			"rule":                         "one evaluation = one history (script of parse/exec/prefill/clock/gc/logcfg/sweep operations over a pool of 3-8 programs) executed in its own OS process and checked op by op against fresh-process references; distinct = distinct signature (sequence of op kinds and program classes); non-trivial = at least 2 exec operations with at least one perturbation (re-used tree, prefill, clock jump, gc, logger switch, other parse) between them",
-			"samples":                      samples,
-			"histories_per_variant":        perVariant,
-			"programs_in_pool":             len(pool),
-			"program_origins":              origin,
-			"programs_admitted":            map[string]int{"sim": len(admitted["sim"]), "native": len(admitted["native"])},
-			"excluded_programs":            excluded,
-			"fresh_process_reference_runs": len(pool) * (2*tier.K + 2),
-			"cli_fresh_runs":               cliRuns,
-			"cli_disagreements":            cliDisagree,
+			"evaluations":                    A.evals,
+			"distinct_nontrivial":            A.nontrivial,
+			"rule":                           "one evaluation = one history (script of parse/exec/prefill/clock/gc/logcfg/sweep operations over a pool of 3-8 programs) executed in its own OS process and checked op by op against fresh-process references; distinct = distinct signature (sequence of op kinds and program classes); non-trivial = at least 2 exec operations with at least one perturbation (re-used tree, prefill, clock jump, gc, logger switch, other parse) between them",
+			"samples":                        samples,
+			"histories_per_variant":          perVariant,
+			"programs_in_pool":               len(pool),
+			"program_origins":                origin,
+			"programs_admitted":              map[string]int{"sim": len(admitted["sim"]), "native": len(admitted["native"])},
+			"excluded_programs":              excluded,
+			"fresh_process_reference_runs":   nRefRuns,
+			"programs_with_single_reference": nExtraProgs,
+			"cli_fresh_runs":                 cliRuns,
+			"cli_disagreements":              cliDisagree,
 			"cross_toolchain_output_differences_informational": crossToolchainDiff,
 			"os_processes_started":                             c.procsStarted,
 			"runs_per_hour":                                    int(float64(A.evals) / histSecs * 3600),
@@ -674,6 +707,8 @@ func runC10(tierName string) int {
 			"simulated_time_s":                                 A.simS,
 			"perturbations_fired":                              map[string]any{"exec": A.execs, "parse": A.parses, "tree_reexecutions": A.reexec, "clock_jumps": A.clock, "gc": A.gcs, "logger_switches": A.logs, "sweeps": A.sweeps, "prefills": A.prefills, "prefill_kinds": A.prefillKinds, "entropy_reseeds": A.execs + A.parses},
 			"entropy_draws_total":                              A.draws,
+			"ordered_program_pairs_covered":                    map[string]any{"sim": len(A.progPairs["sim"]), "native": len(A.progPairs["native"]), "possible_per_variant": nExecable * nExecable, "executable_programs": nExecable, "meaning": "(A, B): A was executed some time before B in one process"},
+			"programs_with_a_reexecuted_tree":                  map[string]any{"sim": len(A.reexecProgs["sim"]), "native": len(A.reexecProgs["native"]), "programs": len(pool)},
 			"adjacency_pairs_covered":                          len(A.adj),
 			"adjacency_pairs_possible":                         len(classSet) * len(classSet),
 			"probes":                                           A.probes,
@@ -686,7 +721,7 @@ func runC10(tierName string) int {
 		}}
 	writeEvidence(ev)
 	fmt.Printf("C10 %s: %d histories (%d distinct non-trivial), %d execs, %d fresh refs, %d cli runs, selftest runs=%d, %.0fs; violations=%d known=%d\n",
-		tier.name, A.evals, A.nontrivial, A.execs, len(pool)*(2*tier.K+2), cliRuns, selfRuns, wall, rep.violations, rep.known)
+		tier.name, A.evals, A.nontrivial, A.execs, nRefRuns, cliRuns, selfRuns, wall, rep.violations, rep.known)
 	cleanupAll()
 	if rep.violations > 0 {
 		return 1
